@@ -42,6 +42,14 @@ CHECKS = {
              'state dumps is produced in 7 (quick) / 32 (thorough) processes with different hash seeds and compared item by item.',
         note='corpus generation is hash-seed independent by construction (blake2b RNG); trees limited to depth 4',
         design='2/C13'),
+    'C06': dict(
+        technique='runtime reference-model monitor: independent IR interpreter evaluates eval_expr results against semantic substitution of the state bindings on concrete valuations',
+        text='eval_abs(state).eval_expr(e) is executed on generated (expression, state) pairs mixing constant, symbolic and absent bindings for identifiers and '
+             'same-address memory cells, on a deterministic all-constant grid over every operator the evaluator or the x86 lifter knows (arity 1..5, 4 widths), '
+             'and on n-ary mixes; the result is evaluated by an independent interpreter under 6 valuations and must equal the substituted value. '
+             'Held on the executions in the evidence; known findings are listed by operator.',
+        note='trusts vf/irsem.py; cells are bound only at addresses that cannot overlap (aliasing is C07)',
+        design='2/C06'),
 }
 
 PENDING_REASON = 'check not built yet in this round (runtime-monitoring design in DESIGN.md section 2); not claimed until it runs clean'
